@@ -1,6 +1,7 @@
 /- Driver, group `ss`: stateful streams. One token `<update ret>/<get>` per event. -/
 import Rrtk.Drv.Base
 import Rrtk.Streams.Stateful
+import Rrtk.Streams.Composed
 namespace Rrtk.Drv
 open Rrtk Rrtk.Wire
 
@@ -58,6 +59,9 @@ def runSs (chk : Bool) (toks : List String) : M Unit := do
   | "pid" :: sp :: kp :: ki :: kd :: evs =>
     let sp ← need (pF sp); let k : PIDK F := ⟨← need (pF kp), ← need (pF ki), ← need (pF kd)⟩
     runEvents (pOut pF) sF (fun s i => .ok (Pid.step sp k s i)) (fun s => .ok (Pid.get s)) Pid.init evs
+  | "spid" :: sp :: kp :: ki :: kd :: evs =>
+    let sp ← need (pF sp); let kp ← need (pF kp); let ki ← need (pF ki); let kd ← need (pF kd)
+    runEvents (pOut cQ'.p) sF (Spid.step chk sp kp ki kd) (fun s => .ok (Spid.get s)) Spid.init evs
   | "ewma" :: ty :: sm :: evs =>
     let sm ← need (pF sm)
     match ← need (pTy ty) with
